@@ -46,3 +46,59 @@ Theorem C06_consistent_order_leaves_no_unbumped_write :
   forall (k : nat) (b : bool), run_pending effs k false = Some b -> b = false.
 Proof. exact consistent_order_failure_leaves_no_unbumped_write. Qed.
 Print Assumptions C06_consistent_order_leaves_no_unbumped_write.
+
+(* ---- on creation the locked_table exposes every stored element, whatever migration was pending (LockedRefine.v) ---- *)
+From LC Require Import LazyRefine LockedRefine.
+Theorem C06_lock_exposes_every_element :
+  forall (c : Core.config) (hash : N -> N),
+  InvDefs.cfg_ok c ->
+  forall (fapply : Api.fnk -> Z -> bool -> Z * bool) (w : Api.world) (a : nat)
+  (s : Api.tslot) (m : amap) (w1 : Api.world) (r1 : Api.out) (w2 : Api.world)
+  (r2 : Api.out),
+  Api.active s = false ->
+  lgood c hash (Api.tb s) ->
+  rep c (Api.tb s) m ->
+  Api.step_some c hash fapply w a s Api.OLock = (w1, r1) ->
+  Api.step_some c hash fapply w1 a
+  {| Api.tb := Core.rehash_with_workers c hash (Api.tb s); Api.active := true |} Api.LTraverse =
+  (w2, r2) ->
+  w1 =
+  Api.reset_its
+  (Api.put_tab w a
+  (Some {| Api.tb := Core.rehash_with_workers c hash (Api.tb s); Api.active := true |})) /\
+  r1 = [Api.RNone] /\
+  w2 = w1 /\
+  is_listing m (Refine.kvs r2) /\
+  Refine.kvs r2 = contents c (Core.rehash_with_workers c hash (Api.tb s)).
+Proof. exact lock_exposes_every_element. Qed.
+Print Assumptions C06_lock_exposes_every_element.
+
+Theorem C06_lock_enters_section :
+  forall (c : Core.config) (hash : N -> N),
+  InvDefs.cfg_ok c ->
+  forall (fapply : Api.fnk -> Z -> bool -> Z * bool) (w : Api.world) (a : nat)
+  (s : Api.tslot) (m : amap) (w' : Api.world) (r : Api.out),
+  Api.get_tab w a = Some s ->
+  a < length (Api.tabs w) ->
+  Api.active s = false ->
+  lgood c hash (Api.tb s) ->
+  rep c (Api.tb s) m ->
+  Refine.limC c (Core.mhp (Api.tb s)) ->
+  Api.step c hash fapply w a Api.OLock = (w', r) ->
+  r = [Api.RNone] /\
+  sect c hash w' a (Core.rehash_with_workers c hash (Api.tb s)) m /\
+  Refine.lim_same (Api.tb s) (Core.rehash_with_workers c hash (Api.tb s)) /\
+  Core.tsize (Core.rehash_with_workers c hash (Api.tb s)) = Core.tsize (Api.tb s) /\
+  Core.bhp (Core.cur (Core.rehash_with_workers c hash (Api.tb s))) = Core.bhp (Core.cur (Api.tb s)).
+Proof. exact lock_enters_section. Qed.
+Print Assumptions C06_lock_enters_section.
+
+Theorem C06_unlock_leaves_section :
+  forall (c : Core.config) (hash : N -> N) (fapply : Api.fnk -> Z -> bool -> Z * bool) 
+  (w : Api.world) (a : nat) (t : Core.table) (m : amap) (w' : Api.world) (r : Api.out),
+  sect c hash w a t m ->
+  Api.step c hash fapply w a Api.OUnlock = (w', r) ->
+  r = [Api.RNone] /\
+  Api.get_tab w' a = Some {| Api.tb := t; Api.active := false |} /\ Refine.good c hash t /\ rep c t m.
+Proof. exact unlock_leaves_section. Qed.
+Print Assumptions C06_unlock_leaves_section.
